@@ -3,6 +3,8 @@
 package harness
 
 import (
+	"crypto/sha256"
+	"encoding/hex"
 	"fmt"
 	"sort"
 	"strings"
@@ -29,30 +31,93 @@ type Stim struct {
 	V    bool   `json:"v,omitempty"`     // voter flag
 	W    string `json:"w,omitempty"`     // before | after ; gate kind
 	On   bool   `json:"on,omitempty"`
+	// inject / fakereply: a crafted request handed to node N's handler as if sent by From, or a
+	// crafted response to a request N has in flight to To
+	Req *WireReq `json:"req,omitempty"`
+	Exp *HExp    `json:"exp,omitempty"` // what Raft.tla's handler operator predicts for an injected request
+}
+
+// HExp is the specification's prediction for one handler call: reply and post-state projection.
+type HExp struct {
+	Ok     bool `json:"ok"`
+	Hint   int  `json:"hint"`
+	RTerm  int  `json:"rterm"`
+	Last   int  `json:"last"`
+	LastT  int  `json:"lastt"`
+	Commit int  `json:"commit"`
+}
+
+// WireReq carries the fields of any of the three requests / responses (unused ones zero).
+type WireReq struct {
+	Term   int       `json:"term"`
+	Prev   int       `json:"prev,omitempty"`
+	PrevT  int       `json:"prevt,omitempty"`
+	Commit int       `json:"commit,omitempty"`
+	Ents   []PrepEnt `json:"ents,omitempty"`
+	Last   int       `json:"last,omitempty"`
+	LastT  int       `json:"lastt,omitempty"`
+	Pre    bool      `json:"pre,omitempty"`
+	Index  int       `json:"index,omitempty"` // snapshot label
+	ITerm  int       `json:"iterm,omitempty"`
+	Off    int       `json:"off,omitempty"`
+	Fill   string    `json:"fill,omitempty"` // snapshot chunk = bytes Lo..Hi of the canonical snapshot named Fill
+	Lo     int       `json:"lo,omitempty"`
+	Hi     int       `json:"hi,omitempty"`
+	Done   bool      `json:"done,omitempty"`
+	Ok     bool      `json:"ok,omitempty"`   // response: Success / VoteGranted
+	Hint   int       `json:"hint,omitempty"` // response: conflict index
+}
+
+// CanonSnap describes a snapshot by its label and the operations it contains.
+type CanonSnap struct {
+	Index int       `json:"index"`
+	Term  int       `json:"term"`
+	Ops   []PrepEnt `json:"ops"`
+	Pad   int       `json:"pad,omitempty"`
+}
+
+// PrepEnt is a log entry of a prepared log or a crafted request: k 0 noop, 1 op, 2 cfg.
+type PrepEnt struct {
+	I int    `json:"i"`
+	T int    `json:"t"`
+	K int    `json:"k"`
+	V string `json:"v,omitempty"`
+}
+
+// Prep is the durable state a node is constructed over (written through the public storage
+// API before NewRaft): term/vote, log entries, an optional snapshot and compaction boundary.
+type Prep struct {
+	Term    int       `json:"term"`
+	Vote    string    `json:"vote,omitempty"`
+	Ents    []PrepEnt `json:"ents,omitempty"`
+	SnapIdx int       `json:"snap_idx,omitempty"` // snapshot labelled with this index (content = its ops) + log compacted there
+	SnapPad int       `json:"snap_pad,omitempty"`
 }
 
 // Scenario describes one bubble run.
 type Scenario struct {
-	Name        string     `json:"name"`
-	Voters      []string   `json:"voters"`
-	NonVoters   []string   `json:"nonvoters,omitempty"` // bootstrapped members that... (unused: Bootstrap makes everyone a voter)
-	Extra       []string   `json:"extra,omitempty"`     // started with empty configuration, to be added later
-	Controlled  bool       `json:"controlled"`
-	Auto        bool       `json:"auto"`
-	SnapEvery   int        `json:"snap_every,omitempty"`
-	SnapPad     int        `json:"snap_pad,omitempty"`
-	Stimuli     []Stim     `json:"stimuli,omitempty"`
-	Heal        bool       `json:"heal"`
-	HealET      int        `json:"heal_et,omitempty"` // heal bound in election timeouts (default 60)
-	Random      *RandCfg   `json:"random,omitempty"`
-	Spec        []SpecStep `json:"spec,omitempty"` // a TLC behaviour of Raft.tla to be replayed step by step
-	StopOnDrift bool       `json:"stop_on_drift,omitempty"`
-	Family      string     `json:"family,omitempty"`
-	Attack      string     `json:"attack,omitempty"`       // weakening whose TLC counterexample this schedule is
-	NoStart     []string   `json:"no_start,omitempty"`     // created but not started by the skeleton
-	NoBootstrap []string   `json:"no_bootstrap,omitempty"` // voters whose Bootstrap call is left to the program
-	LatencyUS   int        `json:"latency_us,omitempty"`
-	JitterUS    int        `json:"jitter_us,omitempty"`
+	Name        string                `json:"name"`
+	Voters      []string              `json:"voters"`
+	NonVoters   []string              `json:"nonvoters,omitempty"` // bootstrapped members that... (unused: Bootstrap makes everyone a voter)
+	Extra       []string              `json:"extra,omitempty"`     // started with empty configuration, to be added later
+	Controlled  bool                  `json:"controlled"`
+	Auto        bool                  `json:"auto"`
+	SnapEvery   int                   `json:"snap_every,omitempty"`
+	SnapPad     int                   `json:"snap_pad,omitempty"`
+	Stimuli     []Stim                `json:"stimuli,omitempty"`
+	Heal        bool                  `json:"heal"`
+	HealET      int                   `json:"heal_et,omitempty"` // heal bound in election timeouts (default 60)
+	Random      *RandCfg              `json:"random,omitempty"`
+	Spec        []SpecStep            `json:"spec,omitempty"` // a TLC behaviour of Raft.tla to be replayed step by step
+	StopOnDrift bool                  `json:"stop_on_drift,omitempty"`
+	Family      string                `json:"family,omitempty"`
+	Attack      string                `json:"attack,omitempty"`       // weakening whose TLC counterexample this schedule is
+	Prep        map[string]*Prep      `json:"prep,omitempty"`         // nodes constructed over prepared storage instead of Bootstrap
+	Canon       map[string]*CanonSnap `json:"canon,omitempty"`        // snapshots "a sender had", for injected InstallSnapshot chunks
+	NoStart     []string              `json:"no_start,omitempty"`     // created but not started by the skeleton
+	NoBootstrap []string              `json:"no_bootstrap,omitempty"` // voters whose Bootstrap call is left to the program
+	LatencyUS   int                   `json:"latency_us,omitempty"`
+	JitterUS    int                   `json:"jitter_us,omitempty"`
 }
 
 type Runner struct {
@@ -62,6 +127,7 @@ type Runner struct {
 	done    int
 	drift   int
 	matched int
+	hcases  int
 	ops     map[int]bool
 }
 
@@ -293,6 +359,30 @@ func (r *Runner) do(s Stim) bool {
 	case "healthy":
 		// brackets a period in which leader s.N is kept in prompt contact with majority s.Val ("a,c")
 		c.rec.Emit("healthy", Ev{"on": s.On, "leader": s.N, "maj": strings.Split(s.Val, ",")})
+	case "inject":
+		if n == nil || !n.running || s.Req == nil {
+			return false
+		}
+		rp := c.net.Inject(n, s.Kind, s.From, s.Req)
+		if s.Exp != nil && rp != nil && s.Kind == "ae" {
+			// conformance with the specification's handler operator (never a verdict)
+			got := c.project(n)
+			x := s.Exp
+			if rp.AEr.Success != x.Ok || int(rp.AEr.Index) != x.Hint || int(rp.AEr.Term) != x.RTerm || got.Last != x.Last || got.LastT != x.LastT || got.Commit != x.Commit {
+				r.drift++
+				c.rec.Emit("drift", Ev{"k": r.done, "a": "HandleAE", "n": n.id, "p": s.From, "applied": true,
+					"diffs": []string{fmt.Sprintf("spec=%+v code=reply{ok:%v hint:%d term:%d} last=%d lastt=%d commit=%d", *x, rp.AEr.Success, rp.AEr.Index, rp.AEr.Term, got.Last, got.LastT, got.Commit)}})
+			} else {
+				r.matched++
+			}
+			r.hcases++
+		}
+	case "fakereply":
+		p := r.match(&Stim{Kind: s.Kind, From: s.N, To: s.To}, 0)
+		if p == nil || s.Req == nil {
+			return false
+		}
+		c.net.FakeReply(p, s.Req)
 	case "api":
 		return r.api(s)
 	case "mark":
@@ -404,7 +494,21 @@ func (r *Runner) setup() {
 	c.net.latency = time.Duration(sc.LatencyUS) * time.Microsecond
 	c.net.jitter = time.Duration(sc.JitterUS) * time.Microsecond
 	members := append([]string{}, sc.Voters...)
+	for name, cs := range sc.Canon {
+		var ops []fsmOp
+		for _, o := range cs.Ops {
+			ops = append(ops, fsmOp{o.I, o.T, o.V})
+		}
+		b := canonicalSnapshot(ops, cs.Pad)
+		c.net.canon[name] = b
+		sum := sha256.Sum256(b)
+		c.rec.Emit("canon", Ev{"name": name, "index": cs.Index, "term": cs.Term, "size": len(b), "h": hex.EncodeToString(sum[:6])})
+	}
 	for _, id := range sc.Voters {
+		if pr := sc.Prep[id]; pr != nil {
+			c.AddPrepared(id, pr, members)
+			continue
+		}
 		n := c.AddNode(id)
 		if n.created && !contains(sc.NoBootstrap, id) {
 			c.Bootstrap(n, members)
@@ -563,8 +667,8 @@ func (r *Runner) Run() {
 			break
 		}
 	}
-	if len(sc.Spec) > 0 {
-		c.rec.Emit("spec_done", Ev{"steps": len(sc.Spec), "matched": r.matched, "drift": r.drift})
+	if len(sc.Spec) > 0 || r.hcases > 0 {
+		c.rec.Emit("spec_done", Ev{"steps": len(sc.Spec) + r.hcases, "matched": r.matched, "drift": r.drift})
 	}
 	if sc.Random != nil {
 		r.random(sc.Random)
